@@ -21,14 +21,14 @@ def known_ids():
 #  count monitors: C01 C02 C04 C05 C06 C07 C08 C09 C18(record part)
 # ----------------------------------------------------------------------------------------
 MIX = {
-    'C01': [('random', 4), ('tie', 1), ('quota', 1), ('coalition', 1), ('chain', 1)],
+    'C01': [('random', 4), ('tie', 1), ('quota', 1), ('coalition', 1), ('chain', 1), ('bullet', 2), ('exact', 1)],
     'C02': [('random', 3), ('chain', 3), ('quota', 1)],
-    'C04': [('quota', 4), ('random', 2), ('tie', 1)],
+    'C04': [('quota', 3), ('exact', 3), ('random', 2), ('tie', 1)],
     'C05': [('coalition', 4), ('random', 2)],
     'C06': [('chain', 3), ('random', 3), ('quota', 1)],
-    'C07': [('tie', 4), ('random', 2), ('quota', 1)],
+    'C07': [('tie', 3), ('prior', 2), ('random', 2), ('quota', 1), ('bullet', 1)],
     'C08': [('random', 4), ('tie', 1), ('quota', 1)],
-    'C09': [('random', 4), ('tie', 1), ('coalition', 1)],
+    'C09': [('random', 4), ('tie', 1), ('coalition', 1), ('bullet', 2), ('exact', 1)],
     'C18': [('random', 4), ('tie', 1), ('quota', 1)],
 }
 RULESET = {
@@ -49,6 +49,8 @@ def pick_shape(rng, mix):
 
 
 def make_profile(rng, shape, prop, rule_hint=None):
+    if shape == 'exact':
+        return gen.exactprofile(rng, p=2)
     if shape == 'random':
         return gen.randprofile(rng, wd=True, und=(prop not in ('C05',)), full=(prop == 'C05' and rng.random() < 0.6),
                                maxc=6 if prop == 'C05' else 7)
@@ -226,6 +228,21 @@ def render_stage(R, tier):
     R.cov['distinct_nontrivial'] += len(recs)
 
 
+def configs_for(rule, rng, shape, all_=False):
+    "exact-threshold profiles are built for two decimal places: run them on the p=2 variants"
+    if shape != 'exact':
+        return gen.configs(rule, rng, all_=all_)
+    if rule == 'wigm':
+        return [(dict(rule=rule, arithmetic='fixed', precision=2), None), (dict(rule=rule, arithmetic='guarded', precision=2, guard=0), None)]
+    if rule in ('meek', 'warren'):
+        return [(dict(rule=rule, arithmetic='fixed', precision=2, omega=1), None)]
+    if rule == 'meek-prf':
+        return [(dict(rule=rule), (2, None, 1))]
+    if rule == 'qpq':
+        return [(dict(rule=rule), (2, 2, None))]
+    return [(dict(rule=rule), (2, None, None))]
+
+
 def check_counts(prop, tier):
     R = vlib.Result(prop, tier)
     rng = random.Random(vlib.seed() * 1000003 + int(prop[1:]))
@@ -275,13 +292,13 @@ def check_counts(prop, tier):
     for i in range(nprof):
         shape = pick_shape(rng, MIX[prop])
         pr = make_profile(rng, shape, prop)
-        if prop == 'C08' and rng.random() < 0.4:
+        if (prop == 'C08' and rng.random() < 0.4) or (prop == 'C02' and rng.random() < 0.2):
             pr = gen.randprofile(rng, wd=True, eq=True, maxc=6, maxlines=8)
         blt = drive.mkblt(**pr)
         for rule in rules:
             if pr.get('eqlines') and rule not in ('meek', 'warren'):
                 continue
-            for opts, lp in gen.configs(rule, rng, all_=(tier == 'thorough' and i % 5 == 0)):
+            for opts, lp in configs_for(rule, rng, shape, all_=(tier == 'thorough' and i % 5 == 0)):
                 budget = 10
                 T = drive.run_count(blt, opts, lowprec=lp, iters=(prop == 'C08'), budget=budget,
                                     want_ballots=(prop in ('C02', 'C06', 'C01')))
@@ -310,6 +327,33 @@ def check_counts(prop, tier):
                     R.sample(dict(blt=blt, options=opts, lowprec=lp, actions=[a['msg'] for a in T['acts']][:12]))
                 if len(traces) >= BATCH:
                     flush()
+    if prop == 'C02':
+        # equal-ranked first preferences under exact arithmetic (tiny profiles: rational Meek is slow)
+        for j in range(6 if tier == 'quick' else 60):
+            k3 = rng.choice([2, 3, 3])
+            grp = rng.sample([1, 2, 3], k3)
+            pr = dict(nc=3, seats=1, lines=[(rng.randint(1, 2), [rng.randint(1, 3)]), (1, rng.sample([1, 2, 3], 2))], tie=[1, 2, 3], withdrawn=[], undeclared=[],
+                      eqlines=[(rng.randint(1, 3), [grp] + ([[c for c in (1, 2, 3) if c not in grp]] if k3 < 3 else []))])
+            if sum(m for m, _ in pr['lines']) + sum(m for m, _ in pr['eqlines']) < 3:
+                pr['lines'].append((2, [1, 2]))
+            blt = drive.mkblt(**pr)
+            for rule in ('meek', 'warren'):
+                opts = dict(rule=rule, arithmetic='rational', omega=1)
+                T = drive.run_count(blt, opts, budget=5, want_ballots=False)
+                R.cov['evaluations'] += 1
+                if T['outcome'] != 'ok':
+                    skipped['rational equal-rank: ' + T['outcome']] += 1
+                    continue
+                Nt = drive.to_native(T)
+                if Nt is None:
+                    skipped['rational equal-rank: not encodable'] += 1
+                    continue
+                tid += 1
+                Nt['id'] = tid
+                Nt['fam'] = 'meek'
+                traces.append(Nt)
+                meta[tid] = (blt, opts, None, T)
+                byrule[rule + ':rational-eq'] += 1
     flush()
     if prop == 'C18':
         render_stage(R, tier)
@@ -379,16 +423,16 @@ def check_c03(tier):
         meta.clear()
 
     for i in range(nprof):
-        shape = pick_shape(rng, [('random', 4), ('tie', 2), ('quota', 2), ('chain', 2), ('coalition', 1)])
+        shape = pick_shape(rng, [('random', 4), ('tie', 2), ('prior', 2), ('quota', 2), ('exact', 2), ('chain', 2), ('coalition', 1), ('bullet', 1)])
         pr = make_profile(rng, shape, 'C01')
         if shape == 'random' and rng.random() < 0.5:
             pr = gen.randprofile(rng, wd=True, und=True, maxc=5, maxlines=7)
         blt = drive.mkblt(**pr)
         for rule in C03_RULES:
             if rule == 'wigm':
-                cfgs = [(dict(rule='wigm', arithmetic='fixed', precision=4), None)]
+                cfgs = [(dict(rule='wigm', arithmetic='fixed', precision=4), None)] if shape != 'exact' else []
             else:
-                cfgs = gen.configs(rule, rng)
+                cfgs = configs_for(rule, rng, shape)
             for opts, lp in cfgs:
                 T = drive.run_count(blt, opts, lowprec=lp)
                 R.cov['evaluations'] += 1
@@ -563,7 +607,7 @@ OPT_CFG = ('INIT Init\nNEXT Next\nINVARIANT StatutoryImmune\nINVARIANT Precedenc
 def options_stage(R, prop, tier):
     "(M) the option lattice of Options.tla, all rules; (S->C) exported cases replayed into Election.__init__"
     rules = ', '.join('"%s"' % r for r in drive.RULES)
-    res = vlib.tlc('Options', OPT_CFG % (rules, 2, 61 if tier == 'quick' else 1), workers=8, heap_mb=3072, timeout=1500)
+    res = vlib.tlc('Options', OPT_CFG % (rules, 2, 3 if tier == 'quick' else 1), workers=8, heap_mb=3072, timeout=1500)
     R.add_tlc(res)
     viol = re.search(r'Invariant (\w+) is violated', res['out'])
     R.stage('model-check Options.tla', distinct_states=res['distinct'], wall_s=round(res['wall'], 1), invariant_violated=viol.group(1) if viol else None)
@@ -859,4 +903,9 @@ def main(argv):
         return 2
     except vlib.Machinery as e:
         print('MACHINERY FAILURE:', e)
+        return 2
+    except Exception:      # a defect of the machinery itself is never reported as a violation
+        import traceback
+        print('MACHINERY FAILURE (internal error):')
+        traceback.print_exc()
         return 2
